@@ -17,17 +17,28 @@ EXPLANATION = (
 NOT_DECIDED = ["equivalence with the written-out form for all placements (an inductive claim over member sequences; only the one-step transition table is decided)"]
 
 
-def closure_of_map(fi):
-    ms = [m for m in method_calls(fi.body, "map") if m["args"] and m["args"][0]["k"] == "Closure" and "stop_repeat" in render(m["args"][0])]
-    if len(ms) != 1:
-        raise Inconclusive(f"{fi.qual}: expected one .map(closure) carrying the repeat protocol")
-    return ms[0]
+def protocol_region(repo, fi):
+    """The per-member step of the repeat protocol: the closure of `.iter().enumerate().map(|(i, m)| ..)`, or the body of a
+    `for (i, m) in ...` loop; in both cases helper methods it calls are evaluated in place. Returns (kind, node, iteration-source)."""
+    def mentions(n):
+        txt = render(n)
+        if "stop_repeat" in txt:
+            return True
+        # the step may have been moved into a helper method called from the region
+        names = {c["func"]["segs"][-1] for c in calls(n)} | {m_["method"] for m_ in method_calls(n)}
+        return any("stop_repeat" in render(f.body) for f in repo.fns(fi.file) if f.name in names and f.name != fi.name)
+    ms = [m for m in method_calls(fi.body, "map") if m["args"] and m["args"][0]["k"] == "Closure" and mentions(m["args"][0])]
+    fs = [n for n in walk(fi.body) if n["k"] == "For" and mentions(n["body"])]
+    if len(ms) == 1 and not fs:
+        return "closure", ms[0], render(ms[0]["recv"]).replace(" ", "")
+    if len(fs) == 1 and not ms:
+        return "for", fs[0], render(fs[0]["iter"]).replace(" ", "")
+    raise Inconclusive(f"{fi.qual}: expected one .map(closure) or one for-loop carrying the repeat protocol")
 
 
 def transition_table(repo, fi, member_name, ctx_field, opaque):
-    m = closure_of_map(fi)
-    cl = m["args"][0]
-    src = render(m["recv"]).replace(" ", "")
+    from ..pe import ContinueEx, ReturnEx
+    kind_, m, src = protocol_region(repo, fi)
 
     def mk():
         return Evaluator(repo, IMPL_FILES, opaque=opaque)
@@ -36,8 +47,30 @@ def transition_table(repo, fi, member_name, ctx_field, opaque):
         env = ev.sym_params(fi)
         if "ctx" not in env:
             env["ctx"] = SymObj("ctx", ("named", "Context"))
-        c = Clos(cl["params"], cl["body"], env, ev)
-        return ev.call_closure(c, [TupleV([SymObj("i", ("int",)), SymObj(member_name, ("named", "?"))])])
+        # locals defined before the region (e.g. `let mut ctx = Context::default();`)
+        for st in fi.body["stmts"]:
+            if st["line"] >= m["line"]:
+                break
+            if st["k"] == "Let" and st.get("init") is not None:
+                p = st["pat"]
+                while p["k"] in ("PType", "PRef"):
+                    p = p["pat"]
+                if p["k"] == "PIdent" and p["name"] not in env:
+                    env[p["name"]] = SymObj(p["name"], ("named", "Context") if p["name"] == "ctx" else ("named", "?"))
+        elem = TupleV([SymObj("i", ("int",)), SymObj(member_name, ("named", "?"))])
+        if kind_ == "closure":
+            cl = m["args"][0]
+            c = Clos(cl["params"], cl["body"], env, ev)
+            return ev.call_closure(c, [elem])
+        env2 = dict(env)
+        if not ev.bind(m["pat"], elem, env2):
+            ev.bind(m["pat"], SymObj(member_name, ("named", "?")), env2)
+        try:
+            return ev.eval_block(m["body"], env2)
+        except ContinueEx:
+            return None
+        except ReturnEx as r:
+            return r.value
     leaves = explore(mk, run)
     rows = []
     for lf in leaves:
